@@ -2,7 +2,7 @@ import Bpmn.Props.C19
 import Bpmn.Gen.C19
 /-! C19 instantiated at the facts extracted from the current /repo tree. -/
 namespace Bpmn.Props.C19
-open Bpmn.Model.Builder
+open Bpmn.Model.Builder Bpmn.Lemmas.Builder Bpmn.Lemmas.BuilderLayout
 
 /-- the model's node sizes are the ones `flowNodeDefaultSize` returns -/
 theorem current_sizes :
@@ -11,6 +11,53 @@ theorem current_sizes :
     Bpmn.Gen.C19.sizeSubProcess = some Kind.subProcess.size ∧
     Bpmn.Gen.C19.sizeAdHocSubProcess = some Kind.adHocSubProcess.size ∧
     Bpmn.Gen.C19.sizeTransaction = some Kind.transaction.size ∧
-    Bpmn.Gen.C19.sizeDefault = some Kind.task.size := by decide
+    Bpmn.Gen.C19.sizeDefault = some Kind.task.size ∧
+    Bpmn.Gen.C19.maxNodeWidth = some maxW ∧ Bpmn.Gen.C19.maxNodeHeight = some maxH ∧
+    Bpmn.Gen.C19.minProcessHeight = some 160 := by decide
+
+/-- the documented default configuration, in units of 1/8 -/
+def currentDefaultCfg : Option Cfg := do
+  let sx ← Bpmn.Gen.C19.defaultStartX
+  let sy ← Bpmn.Gen.C19.defaultStartY
+  let cg ← Bpmn.Gen.C19.defaultColumnGap
+  let rg ← Bpmn.Gen.C19.defaultRowGap
+  let pg ← Bpmn.Gen.C19.defaultProcessGap
+  pure ⟨(sx * 8 : Nat), (sy * 8 : Nat), (cg * 8 : Nat), (rg * 8 : Nat), (pg * 8 : Nat), 8⟩
+
+/-- the documented default gaps are at least the node sizes -/
+theorem current_defaults_cover_sizes : currentDefaultCfg.map (fun c => decide (GapsCover c)) = some true := by decide
+
+/-- hence: at the documented defaults no two shapes overlap, for every list of processes with unique node ids
+and closed flows (in particular everything the builders produce from stored activity types) -/
+theorem current_default_layout_no_overlap (o : Nat → Nat) (procs : List Proc) (n : Nat)
+    (hnd : (nodeIds procs).Nodup) (hcl : ∀ p ∈ procs, flowsClosed p) :
+    ∀ c, currentDefaultCfg = some c → (layoutAll o c n c.sy procs).1.Pairwise (fun s t => disjoint s t = true) := by
+  intro c hc
+  have h := current_defaults_cover_sizes
+  rw [hc] at h
+  simp only [Option.map_some, Option.some.injEq, decide_eq_true_eq] at h
+  exact layout_no_overlap o c h procs n c.sy hnd hcl
+
+/-- Go type name of an activity kind -/
+def goName : Kind → String
+  | .task => "Task" | .businessRuleTask => "BusinessRuleTask" | .userTask => "UserTask"
+  | .callActivity => "CallActivity" | .manualTask => "ManualTask" | .sendTask => "SendTask"
+  | .scriptTask => "ScriptTask" | .serviceTask => "ServiceTask" | .receiveTask => "ReceiveTask"
+  | .subProcess => "SubProcess" | .adHocSubProcess => "AdHocSubProcess" | .transaction => "Transaction"
+  | .activity => "Activity" | .startEvent => "StartEvent" | .endEvent => "EndEvent"
+
+def allKinds : List Kind :=
+  [.startEvent, .endEvent, .task, .businessRuleTask, .userTask, .callActivity, .manualTask, .sendTask, .scriptTask,
+   .serviceTask, .receiveTask, .subProcess, .adHocSubProcess, .transaction, .activity]
+
+/-- the type switch of `AddActivity` names exactly the kinds the model stores -/
+theorem current_stored_types :
+    (Bpmn.Gen.C19.addActivityStored.map fun names =>
+      allKinds.all fun k => decide (actOk k) == names.contains (goName k)) = some true := by decide
+
+/-- where the ids come from: `RandBytes` either builds a clock-seeded source on every call (the oracle is then a
+function of the clock reading and NOT injective — known finding D14) or it does not; the construct was found -/
+theorem current_id_source_found :
+    Bpmn.Gen.C19.randBytesReseedsPerCall = some true ∨ Bpmn.Gen.C19.randBytesReseedsPerCall = some false := by decide
 
 end Bpmn.Props.C19
